@@ -150,9 +150,9 @@ def run(ctx, params):
                 X = step.value
                 if step.outcome == "returned" and X is R:
                     # a copy-on-write call may hand back the receiver itself only where it is documented as a no-op
-                    # (C05: _if=False / MISSING / UNCHANGED - not generated here) or unspecified (element helper on a
-                    # missing container); anywhere else "the copy" shares everything with the receiver
-                    sanctioned = op["hkind"] in ("update_item", "transform_item", "without_item") and op.get("attr") not in R.__dict__
+                    # (C05: _if=False / MISSING / UNCHANGED - not generated here); anywhere else "the copy" shares
+                    # everything with the receiver
+                    sanctioned = False
                     ctx.count("receiver_returned_sanctioned" if sanctioned else "receiver_returned")
                     if not sanctioned:
                         t = cg.BY_NAME.get((op.get("attr") or "").split(",")[0], None)
